@@ -3,13 +3,18 @@
     explicit [Crash]; the theorems say that no reader entry point reaches one, for EVERY byte string.
 
     Full statement (kept visible): additionally, re-writing ([to_writer]) an archive opened from
-    arbitrary bytes never crashes.  Proved here: every reader entry point and every lookup; the
-    re-write clause is covered by the correspondence run and the direct oracle only (it needs the
-    invariant that ids reachable from a parsed directory satisfy id + run <= 2^64 - 1, which holds by
-    [check_runs] but is not yet carried through [finish]).  Allocator and stack behaviour are observed
-    (worker process), not modelled. *)
+    arbitrary bytes never crashes.  Proved here: every reader entry point and every lookup, for every byte
+    string; for the re-write clause [C08_rewrite_partial]: an archive opened from ANY bytes whose addressed tile
+    ranges can all be read, within the size limits of the format ([save_premises], [save_sizes]: tile ids below
+    2^63, fewer than 2^32 tiles, sections below 2^64, no hash collision among the contents), is written
+    successfully — no crash and no error.  Outside those limits (ids >= 2^63 in a hostile directory, unreadable
+    tile ranges) the re-write clause is covered by the correspondence run and the direct oracle only (it needs
+    the invariant that ids reachable from a parsed directory satisfy id + run <= 2^64 - 1, which holds by
+    [check_runs] but is not carried through [finish]).  Allocator and stack behaviour are observed (worker
+    process), not modelled. *)
 Require Import PM.Base PM.Oracles PM.Params PM.Header PM.Directory PM.DirectoryProofs PM.Stream PM.TileManager
-               PM.DirReader PM.Hilbert PM.Archive PM.ArchiveProofs PM.SafetyProofs.
+               PM.DirReader PM.Hilbert PM.Archive PM.ArchiveProofs PM.SafetyProofs
+               PM.TileManagerProofs PM.History PM.HistoryProofs PM.ReopenProofs PM.OpenRepProofs PM.TotalityProofs.
 Open Scope N_scope.
 
 Theorem C08_header : forall b c, decode_header b <> Crash c.
@@ -40,6 +45,20 @@ Theorem C08_zxy : forall id k, zxy 32 id <> Crash k.
 Proof. exact zxy_no_crash. Qed.
 
 (** the depth limit the theorems rely on is the one in the source *)
+(** re-writing an archive opened from arbitrary bytes, within the format's size limits: it succeeds *)
+Theorem C08_rewrite_partial : forall cx, codec_inv cx -> codec_size cx -> forall img r p asy,
+  from_reader cx img r = Ok p ->
+  (forall id t, aget id (tile_by_id (p_tm p)) = Some t -> exists b, tile_content (p_tm p) t = Ok (Some b)) ->
+  (forall m, Rep cx p m -> save_premises cx asy p m /\ save_sizes cx asy p) ->
+  exists b, to_bytes cx asy p = Ok b.
+Proof.
+  intros cx Hinv Hsize img r p asy Hopen Hread Hprem.
+  destruct (from_reader_shape cx img r p Hopen) as [HI Hsh].
+  destruct (rep_of_store cx p HI Hsh Hread) as (m & HR & _).
+  destruct (Hprem m HR) as [Hp Hs].
+  apply (save_total cx Hsize asy p m HR Hp Hs); vm_compute; discriminate.
+Qed.
+
 Theorem C08_params : max_dir_depth = Some 3.
 Proof. reflexivity. Qed.
 
